@@ -19,7 +19,13 @@ func c12Check(c stage.Cfg) func(o *obs.Obs) string {
 			return tag + "/panic|" + p
 		}
 		got := o.Strs("got")
-		if m := joinOrder(got, per); m != "" {
+		if c.Dup {
+			// one channel read by two copiers: the relative order of its elements is not defined; nothing may be
+			// invented or duplicated
+			if !obs.SubMultiset(got, all) {
+				return fmt.Sprintf("%s/invented|the same channel was passed twice; received %v, the channel carried %v", tag, got, all)
+			}
+		} else if m := joinOrder(got, per); m != "" {
 			return tag + "/order|" + m
 		}
 		cancelled := o.Has("cancel")
@@ -95,6 +101,12 @@ func c12Scenarios(tier string) []e1lib.Scenario {
 				}
 				add(stage.Cfg{Stage: "join", Cap: cp, Inputs: ins, Cancel: cancel, Stop: -1}, bound)
 			}
+		}
+	}
+	// the same channel passed twice: its elements arrive once each, nothing else does
+	for _, n := range []int{0, 1, 2, 3} {
+		for cp := 0; cp <= 2; cp++ {
+			add(stage.Cfg{Stage: "join", Cap: cp, Inputs: []int{n}, Stop: -1, Dup: true}, -1)
 		}
 	}
 	// element type any: the first element of the first input is a nil interface value
